@@ -372,6 +372,15 @@ class Repo:
         if impl_header.strip() == '-':
             # free function: depth 0 of file (or of a non-test mod)
             cands = [(s, o, c) for (s, o, c) in find_fns(src, m, 0, len(m), name)]
+        elif impl_header.strip().startswith('macro '):
+            # function written inside an arm of `macro_rules! NAME` (any nesting depth inside the macro)
+            ms, me = find_item(src, m, 'macro_rules', impl_header.strip()[len('macro '):].strip())
+            for mt in re.finditer(r'(?<![A-Za-z0-9_])fn\s+' + re.escape(name) + r'(?![A-Za-z0-9_])', m[ms:me]):
+                p0 = ms + mt.start()
+                o = find_block_open(m, p0)
+                if o < 0:
+                    continue
+                cands.append((p0, o, match_close(m, o)))
         else:
             want = norm_ws(impl_header)
             for (h, o, c) in iter_impls(src, m):
